@@ -110,6 +110,30 @@ def run_shard(spec, rec):
         else:
             rec.sample({"unit": name, "si": si, "expected": str(exp), "registry": kind,
                         "source": src})
+        # "converts to SI" also through to_base_units() in the default (SI) system: same factor, and the
+        # very same SI base units as the SI expression of the table - asked twice, the second answer
+        # comes from the registry's memo
+        SI_BASE = {"meter", "kilogram", "second", "ampere", "kelvin", "mole", "candela"}
+        DIMLESS = {"radian", "bit", "count"}     # dimensionless roots may stay (becquerel = count / second)
+        if not w:
+            for rep in (1, 2):
+                rec.count("base_unit_requests")
+                try:
+                    b = Q(one(), name).to_base_units()
+                    sb = Q(one(), si).to_base_units()
+                    ub = {k: v for k, v in b._units.items() if k not in DIMLESS}
+                    us = {k: v for k, v in sb._units.items() if k not in DIMLESS}
+                    if ub != us:
+                        wb = f"base units {ub} differ from those of {si}: {us}"
+                    elif set(ub) - SI_BASE:
+                        wb = f"not SI base units: {sorted(set(ub) - SI_BASE)}"
+                    else:
+                        wb = compare(name, b.magnitude, exp * F(sb.magnitude), rowkind, "base")
+                except Exception as e:  # noqa: BLE001
+                    wb = f"raised {type(e).__name__}: {e}"
+                if wb:
+                    rec.violation("base-units", {"unit": name, "si": si, "request": rep, "what": wb,
+                                                 "registry": kind}, unit=name)
         if sym is not None:
             rec.count("symbols_checked")
             rec.case((kind, name, "symbol"))
